@@ -3,12 +3,16 @@
 proof: Props/C13.v over Model/Trigger.v + Model/Cron.v instantiated with the facts regenerated from
        pynenc/trigger/*.py on every run (gen/Trigger_gen.v).
 tie:   (1) trigger configurations x occurrence histories on MemTrigger and SQLiteTrigger (real
-           emit_event / report_* / trigger_loop_iteration, virtual clock) against Trigger.run;
+           emit_event / report_* / orchestrator.set_invocation_result|exception / trigger_loop_iteration,
+           virtual clock; default and small configured max_events_batch_size; bursts larger than the batch
+           size and larger than 100) against Trigger.run;
        (2) two concurrent trigger_loop_iteration calls: every single pre-emption point at SQL-statement
            granularity (SQLite) / source-line granularity (in-memory), for the run claim and for the cron
            compare-and-swap, against Trigger.crun / Trigger.casrun with the generated atomicity facts;
        (3) CronCondition._is_satisfied_by and poll sequences on both stores against Cron.cron_sat / polls
-           fed with an independent brute-force 5-field schedule evaluator.
+           fed with an independent brute-force 5-field schedule evaluator;
+       (4) 2-3 runner processes (app objects with their own last-execution caches) polling one SQLite store
+           in alternating / random / block order against Cron.mr_polls.
 An oracle written from the property statement is evaluated on the implementation's observations.
 """
 from __future__ import annotations
@@ -38,13 +42,23 @@ MANIFEST = {
             "in-memory lock; refuted for a split read/write); compare-and-swap that refuses a stale expectation fires once per "
             "stored value; cron: a poll fires only inside a window of a scheduled minute, every scheduled minute yields at most "
             "one occurrence in any poll sequence, and a poll attributed to a scheduled minute inside the window with an old enough "
-            "previous firing does fire. Tie: histories over 1-3 conditions of mixed kinds and 1-3 AND/OR triggers on both stores; "
+            "previous firing does fire; with the stored last execution read on every poll (generated fact) any assignment of polls "
+            "to runners with their own caches gives the outcomes of one runner polling alone (refuted when the cache is trusted: a "
+            "tick is lost); both stores hand every pending valid condition to the iteration (generated facts; bounded read refuted: "
+            "surplus unlaunched, stuck AND occurrences starve later ones); an occurrence report reaches the conditions of its own "
+            "kind only (generated exact context-type filter facts; refuted for a subclass filter). Tie: histories over 1-3 "
+            "conditions of mixed kinds and 1-3 AND/OR triggers on both stores, occurrences reported directly and through whole "
+            "finished invocations (orchestrator.set_invocation_result / set_invocation_exception: final status + result / exception "
+            "of one invocation), default and small (1-4) configured max_events_batch_size, bursts of more pending occurrences than "
+            "the batch size (and 130 with the default configuration) including occurrences stuck in unsatisfied AND triggers; "
             "all single pre-emption points of two real trigger_loop_iteration calls; cron expression family x settings x poll "
-            "sequences against a brute-force schedule evaluator.",
+            "sequences against a brute-force schedule evaluator, on one trigger object per store and on 2-3 runner objects with "
+            "separate caches sharing one SQLite store.",
     "note": "Trusted: Coq kernel; AST translator (fail-closed); SHA-256 run ids modelled as (trigger, set of valid-condition keys) "
             "(injectivity assumed); croniter tied to the brute-force evaluator only on the generated family; SQLite statement "
             "atomicity and `BEGIN IMMEDIATE` exclusion; CPython pre-emption between source lines; interleavings explored with one "
-            "pre-emption (loop B runs to completion at every statement/line of loop A).",
+            "pre-emption (loop B runs to completion at every statement/line of loop A); several runners with separate caches "
+            "are real app objects on one SQLite file polled sequentially (the in-memory store cannot be shared by processes).",
     "design_ref": "DESIGN.md §6 C13",
 }
 
@@ -514,7 +528,7 @@ def run_histories(ctx: Ctx, scratch: str):
     cases = []             # (class, triggers, ops, configured max_events_batch_size or None)
     n_clean = 400 if ctx.thorough else 60
     n_multi = 200 if ctx.thorough else 30
-    n_burst = 60 if ctx.thorough else 10
+    n_burst = 120 if ctx.thorough else 10
     ev = lambda n: ("occ", {"cid": 0, "src": n, "aux": 0, "n": n})      # noqa: E731
     # fixed witnesses first
     cases.append(("multi", [{"conds": [0], "logic": "or", "prov": [0]}], [ev(1), ev(2), ("iter",), ("iter",)], None))
@@ -1231,7 +1245,7 @@ def run_cron_runners(ctx: Ctx, scratch: str):
     cases = [("* * * * *", (60, 50, 30, False), None, [(i % 2, m10 + timedelta(minutes=i)) for i in range(6)], 2),
              ("*/2 * * * *", (60, 50, 30, False), m10 - timedelta(minutes=2),
               [([0, 1, 1, 0, 0, 1, 0, 1][i], m10 + timedelta(minutes=i)) for i in range(8)], 2)]
-    for _ in range(80 if ctx.thorough else 14):
+    for _ in range(200 if ctx.thorough else 14):
         cases.append(gen_runner_case(rng))
     vals = ctx.coq_eval(IMPORTS, [coq_runner_case(c) for c in cases], chunk=40, scope="Z_scope")
     n = 0
@@ -1280,16 +1294,22 @@ def main(ctx: Ctx) -> int:
         "a write transaction there",
         "virtual clock: pynenc.trigger.{base,mem,sqlite}_trigger.datetime replaced by a subclass whose now() is driven by the harness",
         "occurrences are reported through the trigger component's public entry points (emit_event, report_tasks_status, "
-        "report_invocation_result, report_invocation_failure) with real invocations of registered tasks; no runner is started",
+        "report_invocation_result, report_invocation_failure) or by ending a real invocation through "
+        "orchestrator.set_invocation_result / set_invocation_exception (op `fin`); real invocations of registered tasks; no runner is started",
+        "several runners = several app objects (own trigger object and last-execution cache) on one SQLite database, polled one after "
+        "the other under the virtual clock; max_events_batch_size is the only trigger option varied (default, 1-4)",
     ]
     ctx.trusted += ["oracle (Section variable in Model/Cron.v): the schedule predicate on minutes, instantiated by the brute-force evaluator",
                     "SQLite: a statement is atomic; BEGIN IMMEDIATE excludes other writers; INSERT OR REPLACE re-inserts the row at the end"]
     return ctx.finish(
         rule="histories: seeded configurations (1-3 conditions of 4 kinds, 1-3 triggers AND/OR/default, static/none/context argument "
-             "providers) x rounds of occurrences + loop iterations, classes clean / multi-pending, on both stores; targeted witnesses "
-             "of the known classes; two loops: every single pre-emption point for 3 scenarios x 2 stores; cron: seeded expressions x 10 "
-             "settings x poll sequences (regular/jitter/burst/gaps), each poll one evaluation; distinct_nontrivial = distinct "
-             "(configuration, history) pairs + pre-emption points + distinct (expression, settings) pairs")
+             "providers) x rounds of occurrences (direct reports or whole finished invocations) + loop iterations, classes clean / "
+             "multi-pending / burst (more pending than the configured batch size; 130 with the default), every other case with "
+             "max_events_batch_size 1-3, on both stores; targeted witnesses "
+             "of the known classes; two loops: every single pre-emption point for 4 scenarios x 2 stores; cron: seeded expressions x 10 "
+             "settings x poll sequences (regular/jitter/burst/gaps), each poll one evaluation; cron with 2-3 runners on one SQLite "
+             "store: seeded expressions x 5 settings x poll orders (alternate/random/blocks/rotate); distinct_nontrivial = distinct "
+             "(configuration, history, batch size) triples + pre-emption points + distinct (expression, settings) pairs + runner cases")
 
 
 def replay(ctx: Ctx, path: str) -> int:
